@@ -60,7 +60,7 @@ class MolQueryReader(object):
             t = 1
             try:
                 connected = self.RINGgroups[self.ReadGroupName(tree[i][1:])]
-            except KeyError:
+            except (KeyError, TypeError):
                 raise RINGReaderError("Unrecognized group name :'"
                                       + self.ReadGroupName(tree[i][1:])+"'")
             i += 1
